@@ -31,13 +31,14 @@ structure Params where
   subms   : List Submission
   attach  : List Nat               -- per subscriber: instant of its subscription (µs; 0: before `Start`)
   detach  : List Nat               -- per subscriber: instant of its unsubscription (µs; 0: never)
+  grace   : Nat                    -- µs a delivery may be on its way when a subscriber unsubscribes (cut off by `Unsubscribe`)
 deriving Repr
 
 /-- the parameters of the statement for a generated case (what the driver evaluates `spec` with) -/
 def paramsOf (inp : Input) : Params :=
   { genesis := inp.genesis, count := inp.count, depth := Gen.simHistoryDepth,
     range := reportTrackerBlockRange, reports := inp.reports, subms := inp.txs.map (·.2),
-    attach := inp.attach, detach := inp.detach }
+    attach := inp.attach, detach := inp.detach, grace := inp.grace }
 
 /-! ### 2. histories -/
 
@@ -71,8 +72,22 @@ def chainOk (p : Params) (chain : List Block) (times : List Nat) : Bool :=
 def dueTo (p : Params) (o : Out) (i : Nat) : List Block :=
   subChain (p.attach.getD i 0) (p.detach.getD i 0) o.chain o.times
 
-def recvOk (chain recv : List Block) : Bool :=
-  decide (recv.length = chain.length) && decide ((recv.map (·.number)).Nodup) && recv.all (chain.contains ·)
+/-- … of which those broadcast at least `grace` before it unsubscribed cannot have been cut off -/
+def mustGet (p : Params) (o : Out) (i : Nat) : List Block :=
+  subChainG (p.attach.getD i 0) (p.detach.getD i 0) p.grace o.chain o.times
+
+/-- what a subscriber received: no block number twice, only blocks of its subscription, equal (hash,
+    content) to the chain's, and every block whose delivery could not be cut off by its own `Unsubscribe`
+    (with `grace = 0`: exactly the blocks broadcast while attached) -/
+def recvOk (must allowed recv : List Block) : Bool :=
+  decide ((recv.map (·.number)).Nodup) && recv.all (allowed.contains ·) && must.all (recv.contains ·)
+
+/-- the blocks of its subscription a subscriber did receive, in chain order -/
+def gotOf (allowed recv : List Block) : List Block := allowed.filter (recv.contains ·)
+
+/-- the active-upkeep tracker knows exactly the upkeeps created in the received blocks, each once -/
+def activeOk (got : List Block) (active : List Nat) : Bool :=
+  active == sortBy (fun a b => decide (a ≤ b)) (got.flatMap (·.created))
 
 /-! ### 3. transmits -/
 
@@ -148,9 +163,10 @@ def staleLatest (recv : List Block) (k : Nat) (evs : List Ev) : Bool :=
 
 def spec (p : Params) (o : Out) : Bool :=
   chainOk p o.chain o.times && decide (o.chainAfter = o.chain) &&
-  (o.subs.zip (List.range o.subs.length)).all (fun (s, i) => recvOk (dueTo p o i) s.recv) &&
-  (o.subs.zip (List.range o.subs.length)).all (fun (s, i) => recvOk (dueTo p o i) s.slow) &&
-  (o.subs.zip (List.range o.subs.length)).all (fun (s, i) => histsOk p (dueTo p o i) s.hists) &&
+  (o.subs.zip (List.range o.subs.length)).all (fun (s, i) => recvOk (mustGet p o i) (dueTo p o i) s.recv) &&
+  (o.subs.zip (List.range o.subs.length)).all (fun (s, i) => recvOk (mustGet p o i) (dueTo p o i) s.slow) &&
+  (o.subs.zip (List.range o.subs.length)).all (fun (s, i) => histsOk p (gotOf (dueTo p o i) s.recv) s.hists) &&
+  (o.subs.zip (List.range o.subs.length)).all (fun (s, i) => activeOk (gotOf (dueTo p o i) s.recv) s.active) &&
   transmitsOk p o &&
   o.subs.all (subEventsOk p o.chain)
 
@@ -159,20 +175,22 @@ def explain (p : Params) (o : Out) : String :=
   let subs := o.subs.zip (List.range o.subs.length)
   if !chainOk p o.chain o.times then "chain: block numbers are not genesis, genesis+1, … each once"
   else if o.chainAfter != o.chain then "chain: the content of a block changed after it was broadcast"
-  else if subs.any (fun (s, i) => s.recv.length != (dueTo p o i).length || !decide ((s.recv.map (·.number)).Nodup)) then
+  else if subs.any (fun (s, i) => !decide ((s.recv.map (·.number)).Nodup) || !(mustGet p o i).all (s.recv.contains ·)) then
     "delivery: a subscriber did not receive every block broadcast while it was attached exactly once"
   else if subs.any (fun (s, i) => !s.recv.all ((dueTo p o i).contains ·)) then
     "delivery: same block number with different hash or content, or a block from outside the subscription"
-  else if subs.any (fun (s, i) => !recvOk (dueTo p o i) s.slow) then
+  else if subs.any (fun (s, i) => !recvOk (mustGet p o i) (dueTo p o i) s.slow) then
     "delivery: a consumer that had stopped reading for a while did not get every block broadcast while attached exactly once"
   else if o.subs.any (fun s => s.hists.any fun h => !descStrict (h.map (·.number))) then
     "history: block numbers not strictly descending (newest first)"
   else if o.subs.any (fun s => s.hists.any fun h => decide (h.length > p.depth)) then
     "history: longer than the history depth"
-  else if subs.any (fun (s, i) => s.hists.any fun h => !h.all (entryInChain (dueTo p o i))) then
-    "history: entry is not a block of the subscription with its hash"
-  else if subs.any (fun (s, i) => !histsOk p (dueTo p o i) s.hists) then
-    "history: last history is not the newest blocks of the subscription"
+  else if subs.any (fun (s, i) => s.hists.any fun h => !h.all (entryInChain (gotOf (dueTo p o i) s.recv))) then
+    "history: entry is not a received block of the subscription with its hash"
+  else if subs.any (fun (s, i) => !histsOk p (gotOf (dueTo p o i) s.recv) s.hists) then
+    "history: last history is not the newest received blocks"
+  else if subs.any (fun (s, i) => !activeOk (gotOf (dueTo p o i) s.recv) s.active) then
+    "content: a node's active-upkeep tracker does not know exactly the upkeeps created in the blocks it received"
   else if !transmitsOk p o then
     (if (submittedKeys p.subms).any (fun k => acceptedCount p.subms o.accepted k != 1) then
       "transmit: a (report, round) was not accepted from exactly one submitter"
